@@ -3,7 +3,7 @@
    rank-encoded distances, row-major: w a b = wflat[a*N + b]. *)
 From Coq Require Import ZArith QArith List Bool.
 From OPF Require Import Base.Lists Model.Heap Model.Sup Model.Learn Model.Measures Model.Run Model.RunSup
-                        Model.LearnFull.
+                        Model.LearnFull Model.LearnFullFloat.
 Import ListNotations.
 Open Scope Z_scope.
 
@@ -20,10 +20,10 @@ Definition nodes_rows (nd : @nodes Z) : list (list Z) :=
      16     per iteration: 1 iff the stop test |acc - prev| < 0.0001 held (on the rationals)
      17     per iteration: 1 iff fit found a prototype (else the real predict raises IndexError)
      18     per iteration: 1 iff every prediction is <= max(Y_val) (else the real opf_accuracy raises) *)
-Definition run_learn_full (zero top : Z) (N : Z) (wflat : list Z) (n_iterations : Z)
-           (Xt Yt Xv Yv : list Z) (draws : list Z) : list (list Z) :=
+Definition run_learn_full_gen {A : Type} (ao : acc_ops A) (frac : A -> Z * Z) (zero top : Z) (N : Z)
+           (wflat : list Z) (n_iterations : Z) (Xt Yt Xv Yv : list Z) (draws : list Z) : list (list Z) :=
   let w := wfun (zn N) wflat in
-  let r := learn_full Z.ltb zero top w QAcc (zn n_iterations) (map zn draws)
+  let r := learn_full Z.ltb zero top w ao (zn n_iterations) (map zn draws)
                       (mkL (map zn Xt) (map zn Yt) (map zn Xv) (map zn Yv)) in
   let res := fr_res r in
   let st := r_state res in
@@ -31,11 +31,24 @@ Definition run_learn_full (zero top : Z) (N : Z) (wflat : list Z) (n_iterations 
     map nz (l_Xt st); map nz (l_Yt st); map nz (l_Xv st); map nz (l_Yv st);
     map nz (fst (r_snap res)); map nz (snd (r_snap res)) ]
   ++ nodes_rows (fr_nodes r)
-  ++ [ map (fun it => Qnum (Qred (fi_acc it))) (fr_trace r);
-       map (fun it => Zpos (Qden (Qred (fi_acc it)))) (fr_trace r);
+  ++ [ map (fun it => fst (frac (fi_acc it))) (fr_trace r);
+       map (fun it => snd (frac (fi_acc it))) (fr_trace r);
        map (fun it => bool_code (fi_small it)) (fr_trace r);
        map (fun it => bool_code (fit_ok (fi_nodes it))) (fr_trace r);
        map (fun it => bool_code (acc_ok (fi_Yv it) (fi_preds it))) (fr_trace r) ].
+
+(* accuracies exact, comparisons on the rationals *)
+Definition run_learn_full :=
+  run_learn_full_gen QAcc (fun q => (Qnum (Qred q), Zpos (Qden (Qred q)))).
+
+(* accuracies and comparisons in binary64 as numpy evaluates them; rows 14-15 give every
+   accuracy as the exact fraction of the double *)
+Definition run_learn_full_f := run_learn_full_gen FAcc float_fraction.
+
+(* g.opf_accuracy alone, in binary64: [numerator; denominator] of the double *)
+Definition run_acc_f (labels preds : list Z) : list Z :=
+  let fr := float_fraction (opf_accuracy_ops Base.NumOps.FOps (map zn labels) (map zn preds)) in
+  [fst fr; snd fr].
 
 (* output rows:
      0      [rows left; rounds run (n_iterations + 1)]
